@@ -45,7 +45,7 @@ def run(tier, seed):
             for sf, df in ((f, {}), ({}, f), (f, f2)):
                 obs.append({"obs": "qflows", "name": fn, "sf": sf, "df": df})
                 queries.append({"kind": "flows", "name": fn, "sf": sf, "df": df})
-        obs.append({"obs": "oracle", "name": "c13", "queries": queries})
+        obs.append({"obs": "oracle", "name": "c13", "queries": queries, "seed": seed, "program": checklib.strip_meta(dict(p, obs=[])) if len(out) % 3 == 0 else None})
         nq += len(queries)
         p["obs"] = obs
         out.append(p)
